@@ -151,7 +151,7 @@ class BaseResponse:
         headers = self._headers.items()
         bad_headers = self.bad_headers.get(self._status_code)
         if bad_headers:
-            headers = (h for h in headers if h[0] not in bad_headers)
+            headers = (h for h in headers if h[0].title() not in bad_headers)
             need_ctype = False
         else:
             need_ctype = 'Content-Type' not in self._headers
